@@ -42,6 +42,9 @@ def main():
             demo_src = demo_src.replace(f"/tmp/wt/C{i:02d}", dst)
         demo_local = os.path.join(tmp, "demo.py")
         open(demo_local, "w").write(demo_src)
+        helpers = [f for f in os.listdir(out_dir) if f.endswith(".py") and not f.startswith("demo")]
+        for h in helpers:  # helper modules the demo imports
+            shutil.copy(os.path.join(out_dir, h), os.path.join(tmp, h))
         is_pytest = "def test_" in demo_src and "__main__" not in demo_src
         demo_cmd = ["/venv/bin/python", "-m", "pytest", "-q", "-p", "no:cacheprovider", demo_local] if is_pytest else ["/venv/bin/python", demo_local]
         rc0, o0 = sh(demo_cmd, dst, env)
@@ -79,6 +82,8 @@ def main():
             os.makedirs(d, exist_ok=True)
             shutil.copy(patch, os.path.join(d, "patch.diff"))
             shutil.copy(demo, os.path.join(d, "demo.py"))
+            for h in helpers:
+                shutil.copy(os.path.join(out_dir, h), os.path.join(d, h))
             notes = os.path.join(out_dir, "notes.md")
             if os.path.exists(notes):
                 shutil.copy(notes, os.path.join(d, "agent_notes.md"))
